@@ -128,7 +128,7 @@ def gen_plan(rng, tier):
             ops.append(["copy", i])
             pool += 1
         elif r < copy_p + nice_p:
-            ops.append(["nice", i, rng.choice([None, None, 1, 2, 3, 5, 10, 20, 100])])
+            ops.append(["nice", i, rng.choice([None, None, 1, 2, 3, 5, 10, 20, 100, 0.5, 2.5])])
         elif r < copy_p + nice_p + 0.22:
             d = _pair(rng, lo, hi, style)
             if rng.random() < 0.03:
